@@ -49,6 +49,9 @@ Definition decl (op : Z) (ps : list Z) : option (Z * tree) :=
   | 103 => let g := inf ps 2 n in Some (glwe_encrypt_sk_tmp_bytes fam n g, tree_glwe_encrypt_sk fam n g)
   | 104 => let g := inf ps 2 n in Some (glwe_encrypt_pk_tmp_bytes fam n g, tree_glwe_encrypt_pk fam n g (i_size g))
   | 105 => let g := inf ps 2 n in Some (glwe_decrypt_tmp_bytes fam n g, tree_glwe_decrypt fam n g)
+  (* glwe_public_key_generate: runs glwe_encrypt_sk in its own ScratchOwned::alloc(glwe_encrypt_sk_tmp_bytes), i.e. rounded up to 64 *)
+  | 118 => let g := inf ps 2 n in
+           Some ((glwe_encrypt_sk_tmp_bytes fam n g + 63) / 64 * 64, tree_glwe_encrypt_sk fam n g)
   | 106 => let r := inf ps 2 n in let a := inf ps 8 n in let k := inf ps 14 n in
            Some (glwe_keyswitch_tmp_bytes fam n r a k, tree_glwe_keyswitch fam n r a k)
   | 107 => let r := inf ps 2 n in let k := inf ps 14 n in
